@@ -238,4 +238,326 @@ theorem pctDecode_pctEncode (s : Bytes) : pctDecode (pctEncode s) = some s := by
 theorem urlDecode_urlEncode (s : Bytes) : urlDecode (urlEncode s) = .ok (some s) := by
   rw [urlDecode_eq, urlEncode_spec, pctDecode_pctEncode]
 
+/-! ## Set / Delete -/
+
+theorem isPrintable_iff (s : Bytes) : isPrintable s = true ↔ Printable s := by
+  obtain ⟨_, _, _, _, _, _, g7, g8, _⟩ := gen_baggage
+  unfold isPrintable Printable
+  rw [g7, g8]
+  simp [List.all_eq_true]
+
+/-- a printable string holds no NUL: its stored C-string copy is the string itself -/
+theorem cstr_printable (s : Bytes) (h : Printable s) : cstr s = s := by
+  unfold cstr
+  induction s with
+  | nil => rfl
+  | cons c t ih =>
+    have hc := h c (by simp)
+    have hne : (c != 0) = true := by
+      have : c ≠ 0 := by intro e; subst e; exact absurd hc.1 (by decide)
+      simpa using this
+    rw [List.takeWhile_cons, if_pos hne, ih (fun x hx => h x (by simp [hx]))]
+
+/-- conditional `AddEntry` over a list into an array with room for all of it = append the filtered list -/
+theorem foldl_add (cond : Bytes × Bytes → Bool) : ∀ (es : Entries) (p : KvProps), p.entries.length + es.length ≤ p.cap →
+    es.foldl (fun p e => if cond e then p.add e.1 e.2 else p) p = ⟨p.cap, p.entries ++ es.filter cond⟩
+  | [], p, _ => by simp
+  | e :: t, p, h => by
+    simp only [List.foldl_cons, List.length_cons] at h ⊢
+    by_cases hc : cond e = true
+    · have hlt : p.entries.length < p.cap := by omega
+      have hadd : p.add e.1 e.2 = ⟨p.cap, p.entries ++ [e]⟩ := by
+        unfold KvProps.add; rw [if_pos hlt]
+      rw [if_pos hc, hadd, foldl_add cond t _ (by simp; omega), List.filter_cons, if_pos hc]
+      simp
+    · rw [if_neg hc, foldl_add cond t p (by omega), List.filter_cons, if_neg hc]
+
+/-- what `Set` and `Delete` must do, on the abstract ordered list -/
+def specSet (es : Entries) (k v : Bytes) : Entries :=
+  if k ≠ [] ∧ Printable k ∧ Printable v then (k, v) :: es.filter (fun e => e.1 != k) else es
+
+def specDelete (es : Entries) (k : Bytes) : Entries := es.filter (fun e => e.1 != k)
+
+theorem filter_ne_comm (es : Entries) (k : Bytes) :
+    es.filter (fun e => k != e.1) = es.filter (fun e => e.1 != k) := by
+  congr 1; funext e; exact bne_comm
+
+/-- **`Set` refines the abstract map update**: a valid pair is put first and replaces an entry of the same key, every
+    other entry is kept once, in order; an invalid key or value yields a copy -/
+theorem set_eq (es : Entries) (k v : Bytes) : set es k v = specSet es k v := by
+  unfold Baggage.set specSet isValidKey isValidValue
+  by_cases hv : k ≠ [] ∧ Printable k ∧ Printable v
+  · obtain ⟨h1, h2, h3⟩ := hv
+    have e1 : k.isEmpty = false := by cases k <;> simp at h1 ⊢
+    simp only [e1, (isPrintable_iff k).2 h2, (isPrintable_iff v).2 h3, Bool.not_false, Bool.and_self, if_true,
+      Bool.not_true, Bool.false_or, cstr_printable k h2, cstr_printable v h3]
+    rw [if_pos ⟨h1, h2, h3⟩]
+    have hadd : (⟨es.length + 1, []⟩ : KvProps).add k v = ⟨es.length + 1, [(k, v)]⟩ := by
+      unfold KvProps.add; simp
+    rw [hadd, foldl_add (fun e => k != e.1) es _ (by simp only [List.length_cons, List.length_nil]; omega), filter_ne_comm]
+    rfl
+  · rw [if_neg hv]
+    have hval : (!k.isEmpty && isPrintable k && isPrintable v) = false := by
+      cases hb : (!k.isEmpty && isPrintable k && isPrintable v)
+      · rfl
+      · exfalso; apply hv
+        simp only [Bool.and_eq_true, Bool.not_eq_true', isPrintable_iff] at hb
+        refine ⟨?_, hb.1.2, hb.2⟩
+        intro e; subst e; simp at hb
+    simp only [hval, Bool.false_eq_true, if_false, Bool.not_false, Bool.true_or, if_true]
+    have h := foldl_add (fun _ => true) es (⟨es.length + 1, []⟩ : KvProps) (by simp)
+    have hf : es.filter (fun _ => true) = es := List.filter_eq_self.2 (fun _ _ => rfl)
+    rw [hf] at h
+    simpa using congrArg KvProps.entries h
+
+theorem delete_eq (es : Entries) (k : Bytes) : delete es k = specDelete es k := by
+  unfold delete specDelete
+  rw [foldl_add (fun e => k != e.1) es _ (by simp), filter_ne_comm]
+  rfl
+
+/-- **Set replaces an existing key**: afterwards the key maps to the new value, occurs exactly once, and every entry
+    of another key is where it was (same order) -/
+theorem set_replaces (es : Entries) (k v : Bytes) (hk : k ≠ []) (hpk : Printable k) (hpv : Printable v) :
+    get (set es k v) k = some v ∧
+    (set es k v).filter (fun e => e.1 == k) = [(k, v)] ∧
+    (set es k v).filter (fun e => e.1 != k) = es.filter (fun e => e.1 != k) := by
+  rw [set_eq]
+  unfold specSet
+  rw [if_pos ⟨hk, hpk, hpv⟩]
+  refine ⟨by simp [Baggage.get], ?_, ?_⟩
+  · rw [List.filter_cons]
+    simp only [beq_self_eq_true, if_true, List.filter_filter]
+    have : es.filter (fun e => (e.1 == k && e.1 != k)) = [] := by
+      rw [List.filter_eq_nil_iff]; intro e _; cases h : e.1 == k <;> simp [bne, h]
+    simp [this]
+  · rw [List.filter_cons]
+    simp [List.filter_filter]
+
+/-- an invalid key or value: the result is a copy of the baggage -/
+theorem set_invalid_copy (es : Entries) (k v : Bytes) (h : ¬ (k ≠ [] ∧ Printable k ∧ Printable v)) : set es k v = es := by
+  rw [set_eq]; unfold specSet; rw [if_neg h]
+
+/-- **Delete removes the key** (every occurrence) and keeps every other entry where it was -/
+theorem delete_removes (es : Entries) (k : Bytes) :
+    get (delete es k) k = none ∧ (∀ e ∈ delete es k, e.1 ≠ k) ∧ delete es k = es.filter (fun e => e.1 != k) := by
+  rw [delete_eq]
+  unfold specDelete
+  refine ⟨?_, ?_, rfl⟩
+  · simp only [Baggage.get, Option.map_eq_none_iff, List.find?_eq_none, List.mem_filter]
+    rintro e ⟨_, hne⟩ heq
+    simp [bne, heq] at hne
+  · intro e he
+    simp only [List.mem_filter, bne_iff_ne, ne_eq] at he
+    exact he.2
+
+/-! ### neither changes the baggage it was called on: histories -/
+
+/-- an operation names the (earlier) baggage it is applied to; its result is a **new** baggage appended to the family -/
+inductive Op where
+  | set (i : Nat) (k v : Bytes)
+  | delete (i : Nat) (k : Bytes)
+  | fromHeader (h : Bytes)
+  deriving Repr
+
+def step (st : List Entries) : Op → List Entries
+  | .set i k v => st ++ [set (st.getD i []) k v]
+  | .delete i k => st ++ [delete (st.getD i []) k]
+  | .fromHeader h => st ++ [match fromHeader h with | .ok e => e | .fault _ => []]
+
+def run (ops : List Op) : List Entries := ops.foldl step [[]]
+
+/-- **Set and Delete are pure**: after any further history every baggage that existed before still has exactly the
+    entries it had (in the C++ this is what the harness re-reads after every operation) -/
+theorem set_delete_pure (ops more : List Op) (i : Nat) (hi : i < (run ops).length) :
+    (run (ops ++ more))[i]? = (run ops)[i]? := by
+  unfold run at hi ⊢
+  rw [List.foldl_append]
+  generalize List.foldl step [[]] ops = st at hi ⊢
+  revert hi
+  induction more generalizing st with
+  | nil => intro _; rfl
+  | cons op t ih =>
+    intro hi
+    simp only [List.foldl_cons]
+    have hst : ∃ x, step st op = st ++ [x] := by cases op <;> exact ⟨_, rfl⟩
+    obtain ⟨x, hx⟩ := hst
+    rw [ih (step st op) (by rw [hx]; simp; omega), hx, List.getElem?_append_left hi]
+
+/-! ## FromHeader: exactly the valid members, within the limits -/
+
+/-- value part and metadata (from the first `;` on, verbatim) -/
+def metaSplit (v : Bytes) : Bytes × Bytes :=
+  match takeTok 59 v with
+  | (a, none) => (a, [])
+  | (a, some r) => (a, 59 :: r)
+
+theorem splitMeta_eq (v : Bytes) : splitMeta v = metaSplit v := by
+  obtain ⟨_, _, _, _, _, g6, _⟩ := gen_baggage
+  unfold splitMeta metaSplit
+  rw [g6]
+  cases takeTok 59 v with
+  | mk a o => cases o <;> rfl
+
+/-- **what one list member contributes**, read off the property text: it must have a `=`; key and value together at
+    most 4096 bytes; the value is cut at the first `;` (the rest is metadata, kept verbatim); key and value part are
+    trimmed and strictly percent-decoded; the decoded key must be non-empty printable, the decoded value printable.
+    (`cstr`: the entry is stored as a C string, so what is seen of it ends at a NUL byte — only metadata can hold one.) -/
+def memberEntry (m : Bytes) : Option (Bytes × Bytes) :=
+  match splitKv 61 m with
+  | none => none
+  | some (k, v) =>
+    if k.length + v.length > 4096 then none
+    else
+      match pctDecode (trim k), pctDecode (trim (metaSplit v).1) with
+      | some ks, some vs =>
+        if ks ≠ [] ∧ Printable ks ∧ Printable vs then some (cstr ks, cstr (vs ++ (metaSplit v).2)) else none
+      | _, _ => none
+
+theorem validKV_iff (ks vs : Bytes) : (isValidKey ks && isValidValue vs) = true ↔ (ks ≠ [] ∧ Printable ks ∧ Printable vs) := by
+  unfold isValidKey isValidValue
+  simp only [Bool.and_eq_true, Bool.not_eq_true', isPrintable_iff]
+  constructor
+  · rintro ⟨⟨h1, h2⟩, h3⟩
+    refine ⟨?_, h2, h3⟩
+    intro e; subst e; simp at h1
+  · rintro ⟨h1, h2, h3⟩
+    refine ⟨⟨?_, h2⟩, h3⟩
+    cases ks <;> simp at h1 ⊢
+
+/-- the loop body never faults and computes `memberEntry` -/
+theorem parseMember_eq (m : Bytes) : parseMember m = .ok (memberEntry m) := by
+  obtain ⟨_, g2, _, g4, _⟩ := gen_baggage
+  unfold parseMember memberEntry
+  rw [g4, g2]
+  cases splitKv 61 m with
+  | none => rfl
+  | some p =>
+    obtain ⟨k, v⟩ := p
+    simp only []
+    by_cases hl : k.length + v.length > 4096
+    · rw [if_pos hl, if_pos hl]
+    · rw [if_neg hl, if_neg hl, urlDecode_eq, Res.bind_ok, urlDecode_eq, Res.bind_ok, splitMeta_eq]
+      cases pctDecode (trim k) with
+      | none => rfl
+      | some ks =>
+        cases pctDecode (trim (metaSplit v).1) with
+        | none => rfl
+        | some vs =>
+          simp only []
+          by_cases hv : ks ≠ [] ∧ Printable ks ∧ Printable vs
+          · rw [if_pos ((validKV_iff ks vs).2 hv), if_pos hv]
+          · have : ¬ (isValidKey ks && isValidValue vs) = true := fun h => hv ((validKV_iff ks vs).1 h)
+            rw [if_neg this, if_neg hv]
+
+theorem fromHeaderLoop_eq (cnt : Nat) : ∀ (ms : List Bytes) (p : KvProps), p.cap = cnt → p.entries.length ≤ cnt →
+    fromHeaderLoop cnt ms p = .ok ⟨cnt, (p.entries ++ ms.filterMap memberEntry).take cnt⟩
+  | [], p, hc, hl => by
+    simp only [fromHeaderLoop, List.filterMap_nil, List.append_nil]
+    rw [List.take_of_length_le hl, ← hc]
+  | m :: ms, p, hc, hl => by
+    simp only [fromHeaderLoop]
+    by_cases hlt : p.entries.length < cnt
+    · rw [if_pos hlt, parseMember_eq, Res.bind_ok]
+      cases hm : memberEntry m with
+      | none =>
+        simp only []
+        rw [fromHeaderLoop_eq cnt ms p hc hl, List.filterMap_cons, hm]
+      | some e =>
+        obtain ⟨k, v⟩ := e
+        have hadd : p.add k v = ⟨cnt, p.entries ++ [(k, v)]⟩ := by
+          unfold KvProps.add; rw [if_pos (by rw [hc]; exact hlt), hc]
+        simp only []
+        rw [hadd, fromHeaderLoop_eq cnt ms _ rfl (by simp; omega), List.filterMap_cons, hm]
+        simp
+    · rw [if_neg hlt]
+      have heq : p.entries.length = cnt := by omega
+      have : (p.entries ++ (m :: ms).filterMap memberEntry).take cnt = p.entries := by
+        rw [← heq]; exact List.take_left' rfl
+      rw [this, ← hc]
+
+/-- **`FromHeader`, exactly**: never a fault; an over-long header gives the empty baggage; otherwise the entries are
+    the contributions of the trimmed non-empty `,`-separated members, in order, cut off after
+    min(number of `,`-separated tokens, 180) entries -/
+theorem fromHeader_eq (h : Bytes) : fromHeader h =
+    .ok (if h.length > 8192 then [] else ((members 44 h).filterMap memberEntry).take (min (numTok 44 h) 180)) := by
+  obtain ⟨g1, _, g3, _, g5, _⟩ := gen_baggage
+  unfold fromHeader
+  rw [g1, g3, g5]
+  by_cases hl : h.length > 8192
+  · rw [if_pos hl, if_pos hl]
+  · rw [if_neg hl, if_neg hl]
+    have hmin : (if numTok 44 h > 180 then 180 else numTok 44 h) = min (numTok 44 h) 180 := by
+      split <;> omega
+    simp only []
+    rw [hmin, fromHeaderLoop_eq (min (numTok 44 h) 180) (members 44 h) ⟨min (numTok 44 h) 180, []⟩ rfl (by simp)]
+    simp
+
+theorem fromHeader_never_oob (h : Bytes) : ∃ r, fromHeader h = .ok r := ⟨_, fromHeader_eq h⟩
+
+/-- the entries `FromHeader` yields, as a total function (justified by `fromHeader_eq`) -/
+def parsed (h : Bytes) : Entries :=
+  if h.length > 8192 then [] else ((members 44 h).filterMap memberEntry).take (min (numTok 44 h) 180)
+
+/-- **the three limits**: a header of more than 8192 bytes yields nothing; never more than 180 entries; a member whose
+    key and value together exceed 4096 bytes contributes nothing -/
+theorem fromHeader_limits (h : Bytes) :
+    (h.length > 8192 → fromHeader h = .ok []) ∧
+    (∀ es, fromHeader h = .ok es → es.length ≤ 180) ∧
+    (∀ m k v, splitKv 61 m = some (k, v) → k.length + v.length > 4096 → memberEntry m = none) := by
+  refine ⟨?_, ?_, ?_⟩
+  · intro hl; rw [fromHeader_eq, if_pos hl]
+  · intro es he
+    rw [fromHeader_eq] at he
+    simp only [Res.ok.injEq] at he
+    rw [← he]
+    split
+    · simp
+    · rw [List.length_take]; omega
+  · intro m k v hs hl
+    unfold memberEntry
+    rw [hs]
+    simp only []
+    rw [if_pos hl]
+
+/-- **only valid members are kept**: every entry of the result is the contribution of some list member of the header —
+    a member with a `=`, within 4096 bytes, whose trimmed key and value part decode strictly to a non-empty printable
+    key and a printable value; the entry is that key and that value followed by the member's metadata -/
+theorem fromHeader_only_valid (h : Bytes) (es : Entries) (he : fromHeader h = .ok es) :
+    ∀ e ∈ es, ∃ m ∈ members 44 h, ∃ k v ks vs, splitKv 61 m = some (k, v) ∧ k.length + v.length ≤ 4096 ∧
+      pctDecode (trim k) = some ks ∧ pctDecode (trim (metaSplit v).1) = some vs ∧
+      ks ≠ [] ∧ Printable ks ∧ Printable vs ∧ e = (cstr ks, cstr (vs ++ (metaSplit v).2)) := by
+  rw [fromHeader_eq] at he
+  simp only [Res.ok.injEq] at he
+  intro e hmem
+  rw [← he] at hmem
+  split at hmem
+  · simp at hmem
+  · have hmem' := List.mem_of_mem_take hmem
+    rw [List.mem_filterMap] at hmem'
+    obtain ⟨m, hm, hme⟩ := hmem'
+    refine ⟨m, hm, ?_⟩
+    unfold memberEntry at hme
+    cases hs : splitKv 61 m with
+    | none => rw [hs] at hme; simp at hme
+    | some p =>
+      obtain ⟨k, v⟩ := p
+      rw [hs] at hme
+      simp only [] at hme
+      by_cases hl : k.length + v.length > 4096
+      · rw [if_pos hl] at hme; simp at hme
+      · rw [if_neg hl] at hme
+        cases hk : pctDecode (trim k) with
+        | none => rw [hk] at hme; simp at hme
+        | some ks =>
+          cases hv : pctDecode (trim (metaSplit v).1) with
+          | none => rw [hk, hv] at hme; simp at hme
+          | some vs =>
+            rw [hk, hv] at hme
+            simp only [] at hme
+            by_cases hval : ks ≠ [] ∧ Printable ks ∧ Printable vs
+            · rw [if_pos hval] at hme
+              simp only [Option.some.injEq] at hme
+              exact ⟨k, v, ks, vs, rfl, by omega, hk, hv, hval.1, hval.2.1, hval.2.2, hme.symm⟩
+            · rw [if_neg hval] at hme; simp at hme
+
 end Otel.C15
